@@ -89,8 +89,9 @@ __CPROVER_ensures((s->s_closed && s->s_ref <= 1) ? (g_wake_calls == OLD(g_wake_c
  * ever points at released memory), it leaves its socket's list, the socket's
  * closer is woken, the protocol's ctx_fini runs once before the block is
  * released exactly once with its recorded size */
-#define CTX_SHAPE(ctx) (g_priv < SC_PRIV_MAX && __CPROVER_is_fresh(ctx, sizeof(nni_ctx) + g_priv) && (ctx)->c_size == sizeof(nni_ctx) + g_priv \
-    && FRESH((ctx)->c_sock, SOCKT) && (ctx)->c_ops.ctx_fini == vp_ctx_fini && ((ctx)->c_data == NULL || ALIAS((void *) ((ctx) + 1), (ctx)->c_data)) \
+/* BOUND (tool): the block is exactly a struct nni_ctx (protocol private area of size 0); a block of another size is a byte array for CBMC and the proof runs out of memory.  c_data is any pointer (only handed to ctx_fini). */
+#define CTX_SHAPE(ctx) (__CPROVER_is_fresh(ctx, sizeof(nni_ctx)) && (ctx)->c_size == sizeof(nni_ctx) \
+    && FRESH((ctx)->c_sock, SOCKT) && (ctx)->c_ops.ctx_fini == vp_ctx_fini \
     && (ctx)->c_sock->s_ctxs.ll_offset == offsetof(nni_ctx, c_node) && NODE_LINKED((ctx)->c_sock->s_ctxs, (ctx)->c_node, g_sole_a, g_sole_b))
 #define CTX_DESTROY(ctx) (OLD((ctx)->c_ref) == 1 && OLD((ctx)->c_closed))
 #define CTX_RELE_ASSIGNS(ctx) \
@@ -139,9 +140,9 @@ COVER(OLD(ctx->c_ref) == 1) COVER(OLD(ctx->c_ref) == 2)
 #define CO_ISSUED (g_ida_calls == OLD(g_ida_calls) + 1 && !g_ida_fail)
 int nni_ctx_open(nni_ctx **ctxp, nni_sock *sock)
 __CPROVER_requires(FRESH(ctxp, *ctxp) && FRESH(sock, SOCKT) && VP_NO_LOCK_HELD)
-__CPROVER_requires((sock->s_ctx_ops.ctx_init == NULL || sock->s_ctx_ops.ctx_init == vp_ctx_init) && sock->s_ctx_ops.ctx_fini == vp_ctx_fini && sock->s_ctx_ops.ctx_size < SC_PRIV_MAX)
-/* g_sole_b: the socket has no context yet; g_priv, g_sole_a: bound for the release step of the closing path */
-__CPROVER_requires(sock->s_ctxs.ll_offset == offsetof(nni_ctx, c_node) && TAIL_PRE(sock->s_ctxs, g_sole_b) && g_sole_a && g_priv == sock->s_ctx_ops.ctx_size)
+__CPROVER_requires((sock->s_ctx_ops.ctx_init == NULL || sock->s_ctx_ops.ctx_init == vp_ctx_init) && sock->s_ctx_ops.ctx_fini == vp_ctx_fini && sock->s_ctx_ops.ctx_size == 0)
+/* g_sole_b: the socket has no context yet; g_sole_a: bound for the release step of the closing path */
+__CPROVER_requires(sock->s_ctxs.ll_offset == offsetof(nni_ctx, c_node) && TAIL_PRE(sock->s_ctxs, g_sole_b) && g_sole_a)
 __CPROVER_assigns(*ctxp, sock->s_ctxs.ll_head.ln_prev, sock->s_ctxs.ll_head.ln_prev->ln_next, ctx_ids.id_count, G_IDA, G_IDR, VP_HEAP_GHOSTS, g_wake_calls, g_wake_cv, g_cinit_calls, g_cinit_data, g_cinit_sdata, g_cfini_calls, g_cfini_data, g_cfini_at_free, VP_SYNC_GHOSTS)
 __CPROVER_ensures(VP_NO_LOCK_HELD)
 __CPROVER_ensures(RV == 0 || RV == NNG_ENOTSUP || RV == NNG_ENOMEM || RV == NNG_ECLOSED)
